@@ -618,8 +618,15 @@ class Symx:
         margs = self._shown(fn, st, t, args) if self.snapshot_refs else args
         for nm in [name] + names:
             if nm in self.models:
+                self.cur_state = st            # models may read places: self.read_ref(ref)
                 r = self.models[nm](self, margs, t)
                 if r is not None:
+                    if r[0] == '__effects__':
+                        # ('__effects__', [(ref value, new value), ...], returned value)
+                        for rf, val in r[1]:
+                            if rf[0] == 'ref':
+                                self._write(st, rf[1], tuple(rf[2]), val)
+                        r = r[2]
                     return done(r)
         # Option::is_some / is_none of a known variant
         if names and names[0] in ('core::option::Option::is_some', 'core::option::Option::is_none') and len(args) == 1:
@@ -757,6 +764,14 @@ class Symx:
         self._havoc_mut_args(fn, st, t, args)
         self.uid += 1
         return done(('call', name, tuple(shown), self.uid))
+
+    def read_ref(self, rf):
+        """for models: the current value behind a reference value"""
+        if rf[0] == 'valref':
+            return rf[1]
+        if rf[0] == 'ref':
+            return self._read(self.cur_state, rf[1], tuple(rf[2]))
+        return rf
 
     def _const_view(self, st, a):
         """the constant a (reference to a) value denotes, or None"""
